@@ -22,9 +22,11 @@
      17 expected IPv4 address  18 expected hex digits  19 uneven number of hex digits
      20 expected SshfpAlgorithm  21 expected SshfpType  22 expected TlsaCertificateUsage
      23 expected TlsaSelector  24 expected TlsaMatchingType
+     25 trailing Base 64 data  26 illegal Base 64 data  27 incomplete Base 64 data
      99 record type / syntax outside the model *)
 From Coq Require Import NArith List Bool Arith.
 From DV Require Import Base.Outcome Base.Bytes C07.Gen.
+From DV Require C18.Gen C18.Model.
 Import ListNotations.
 Local Open Scope N_scope.
 
@@ -646,8 +648,31 @@ Definition append_data (s : sbuf) (data : list N) (w : nat) (b : option (list N)
     else do s' <- store_list s w data; Ok (s', nw, None)
   end.
 
-Fixpoint convert_token_loop (fuel : nat) (h : hexst) (s : sbuf) (w : nat) (b : option (list N))
-  : outcome (hexst * sbuf * nat * option (list N)) :=
+(* utils::base64::SymbolConverter: the C18 model of process_char / process_tail,
+   with its error classes mapped to the EntryError messages *)
+Definition b64_err {A} (o : outcome A) : outcome A :=
+  match o with
+  | Err e => if e =? C18.Model.E_TRAILING then Err 25
+             else if e =? C18.Model.E_SHORT then Err 27 else Err 26
+  | x => x
+  end.
+
+Definition b64_process (c : C18.Model.conv64) (sym : symbol) : outcome (C18.Model.conv64 * list N) :=
+  match into_char sym with
+  | None => Err 26
+  | Some ch => b64_err (C18.Model.c64_process_char c ch)
+  end.
+
+Definition b64_tail (c : C18.Model.conv64) : outcome unit :=
+  do _ <- b64_err (C18.Model.c64_process_tail c); Ok tt.
+
+Section Convert.
+Variable St : Type.
+Variable process : St -> symbol -> outcome (St * list N).
+Variable tail : St -> outcome unit.
+
+Fixpoint convert_token_loop (fuel : nat) (h : St) (s : sbuf) (w : nat) (b : option (list N))
+  : outcome (St * sbuf * nat * option (list N)) :=
   match fuel with
   | O => OutOfFuel
   | S f =>
@@ -655,7 +680,7 @@ Fixpoint convert_token_loop (fuel : nat) (h : hexst) (s : sbuf) (w : nat) (b : o
     match r with
     | (None, s') => Ok (h, s', w, b)
     | (Some sym, s') =>
-      do hd <- hex_process h sym;
+      do hd <- process h sym;
       match snd hd with
       | [] => convert_token_loop f (fst hd) s' w b
       | data => do a <- append_data s' data w b;
@@ -664,8 +689,8 @@ Fixpoint convert_token_loop (fuel : nat) (h : hexst) (s : sbuf) (w : nat) (b : o
     end
   end.
 
-Fixpoint convert_entry_loop (fuel : nat) (h : hexst) (s : sbuf) (w : nat) (b : option (list N))
-  : outcome (hexst * sbuf * nat * option (list N)) :=
+Fixpoint convert_entry_loop (fuel : nat) (h : St) (s : sbuf) (w : nat) (b : option (list N))
+  : outcome (St * sbuf * nat * option (list N)) :=
   match fuel with
   | O => OutOfFuel
   | S f =>
@@ -678,14 +703,18 @@ Fixpoint convert_entry_loop (fuel : nat) (h : hexst) (s : sbuf) (w : nat) (b : o
       convert_entry_loop f h' s'' w' b'
   end.
 
-Definition convert_entry_hex (s : sbuf) : outcome (list N * sbuf) :=
-  do r <- convert_entry_loop (fuel_of s) (mkH false 0) s 0 None;
+Definition convert_entry (init : St) (s : sbuf) : outcome (list N * sbuf) :=
+  do r <- convert_entry_loop (fuel_of s) init s 0 None;
   let '(h, s', w, b) := r in
-  do _ <- hex_tail h;
+  do _ <- tail h;
   match b with
   | Some bl => Ok (bl, s')
   | None => split_to s' w
   end.
+End Convert.
+
+Definition convert_entry_hex := convert_entry hexst hex_process hex_tail (mkH false 0).
+Definition convert_entry_b64 := convert_entry C18.Model.conv64 b64_process b64_tail C18.Model.c64_new.
 
 (* ------------------------------------------------------------- FromStr impls *)
 
@@ -831,13 +860,14 @@ Definition scan_ctr (s : sbuf) : outcome (option N * option N * N * sbuf) :=
 (* record data: the presentation schema of the modelled types as a sequence of
    Scanner calls, result = wire format of the record data *)
 Inductive field := FName | FU16 | FU32 | FTtl | FCharstr | FCharstrEntry | FIpv4
-  | FU8Str (err : N) | FHexEntry.
+  | FU8Str (err : N) | FHexEntry | FB64Entry.
 
 Definition schema (rtype : N) : option (list field) :=
   if rtype =? 1 then Some [FIpv4]
   else if (rtype =? 2) || (rtype =? 5) || (rtype =? 12) || (rtype =? 3) || (rtype =? 4) || (rtype =? 7)
           || (rtype =? 8) || (rtype =? 9) || (rtype =? 39) then Some [FName]
   else if (rtype =? 14) || (rtype =? 17) then Some [FName; FName]
+  else if rtype =? 61 then Some [FB64Entry]
   else if rtype =? 44 then Some [FU8Str 20; FU8Str 21; FHexEntry]
   else if rtype =? 52 then Some [FU8Str 22; FU8Str 23; FU8Str 24; FHexEntry]
   else if rtype =? 6 then Some [FName; FName; FU32; FTtl; FTtl; FTtl; FTtl]
@@ -866,6 +896,7 @@ Definition scan_field (origin : option (list N)) (f : field) (s : sbuf) : outcom
     do r <- scan_ascii_str (fun str => match parse_uint 255 str with Some v => Ok v | None => Err e end) s;
     Ok ([fst r], snd r)
   | FHexEntry => convert_entry_hex s
+  | FB64Entry => convert_entry_b64 s
   end.
 
 Fixpoint scan_fields (origin : option (list N)) (fs : list field) (s : sbuf) (acc : list N)
